@@ -153,7 +153,9 @@ SPEC = {
                   "device: services = union of the clients' services at every lock-step tick, open while somebody holds a "
                   "service, closed when the last client has left; for the daemon: sanitizer-silent, exit status 0 on SIGTERM, "
                   "no leak, capture device never touched while the acquisition thread reads it, delivery never at a standstill "
-                  "(reproduced twice at the same virtual time). Held on the schedules executed, not a proof; the interleavings "
+                  "(reproduced twice at the same virtual time). Schedules also contain service requests that arrive together with a captured frame "
+                  "(daemon stopped and continued, both pending in one main loop round: everybody but the requester must get the frame) and clients "
+                  "that connect without services while the device is closed and ask for them afterwards. Held on the schedules executed, not a proof; the interleavings "
                   "of the daemon's two threads are sampled by the scheduler, not enumerated.",
     "level_note": "Trusted: hook H1 (checked on every run: the frames it hands to the daemon equal a direct capture from the same "
                   "simulator in a fresh process), the controller's virtual clock, the monitors in rig/proxy_rig.py, gcc ASan/UBSan/"
